@@ -283,6 +283,16 @@ func (f *Func) wrapsVar(e ast.Expr, pkg, name string) bool {
 
 // isNilIdent reports the predeclared nil.
 func isNilIdent(info *types.Info, e ast.Expr) bool {
+	if st, ok := ast.Unparen(e).(*ast.StarExpr); ok {
+		// *new(T): the zero value of T, which is nil for the nilable kinds
+		if call, ok := ast.Unparen(st.X).(*ast.CallExpr); ok && isBuiltinCall(info, call, "new") && len(call.Args) == 1 {
+			switch info.TypeOf(call.Args[0]).Underlying().(type) {
+			case *types.Pointer, *types.Interface, *types.Slice, *types.Map, *types.Chan, *types.Signature:
+				return true
+			}
+		}
+		return false
+	}
 	id, ok := ast.Unparen(e).(*ast.Ident)
 	if !ok {
 		return false
@@ -297,6 +307,9 @@ func isNilIdent(info *types.Info, e ast.Expr) bool {
 // handled by callers through outcome edges).
 func (f *Func) mayBeNilError(e ast.Expr) bool {
 	info := f.Info()
+	if id, ok := ast.Unparen(e).(*ast.Ident); ok && f.guardedNonNil(id) {
+		return false
+	}
 	v := f.ResolveDeep(e)
 	switch x := ast.Unparen(v.E).(type) {
 	case *ast.CallExpr:
@@ -327,7 +340,103 @@ func (f *Func) mayBeNilError(e ast.Expr) bool {
 		}
 	case *ast.SelectorExpr:
 		if o, ok := info.Uses[x.Sel].(*types.Var); ok && !isLocal(o) && !o.IsField() {
+			if stdSentinel(o) {
+				return false
+			}
 			return !f.Prog.pkgVarNonNil(o)
+		}
+	}
+	return true
+}
+
+// stdSentinel: an exported error variable of the standard library named EOF or
+// Err... (io.EOF, fs.ErrNotExist, context.Canceled is not matched): these are
+// initialised with errors.New and never nil.
+func stdSentinel(o *types.Var) bool {
+	if o.Pkg() == nil || !o.Exported() || !isErrorType(o.Type()) {
+		return false
+	}
+	first := o.Pkg().Path()
+	if i := strings.Index(first, "/"); i >= 0 {
+		first = first[:i]
+	}
+	if strings.Contains(first, ".") {
+		return false
+	}
+	return o.Name() == "EOF" || strings.HasPrefix(o.Name(), "Err")
+}
+
+// guardedNonNil: the use id of a local error variable is only reachable through
+// an edge on which `id != nil` holds, with no definition of the variable in
+// between: every path from the function entry or from a definition of the
+// variable to the use crosses such an edge.
+func (f *Func) guardedNonNil(id *ast.Ident) bool {
+	info := f.Info()
+	obj := info.Uses[id]
+	if obj == nil || !isLocal(obj) || !isErrorType(obj.Type()) || f.Body == nil {
+		return false
+	}
+	if id.Pos() < f.Body.Pos() || id.End() > f.Body.End() {
+		return false
+	}
+	use := f.Find(func(n ast.Node) bool { return n == ast.Node(id) })
+	if len(use) != 1 {
+		return false
+	}
+	// the variable must only be written by nodes of f's own graph (or by directly deferred literals)
+	var sites []Site
+	for _, d := range f.Defs(obj) {
+		ds := f.Find(func(n ast.Node) bool { return n == d.Node })
+		if len(ds) != 1 {
+			inDeferred := false
+			for _, l := range deferredLits(f) {
+				if d.Node.Pos() >= l.Lit.Pos() && d.Node.End() <= l.Lit.End() {
+					inDeferred = true
+				}
+			}
+			if inDeferred {
+				continue
+			}
+			return false
+		}
+		if d.Kind == DefOther {
+			return false // address taken, ++ ...
+		}
+		sites = append(sites, ds[0])
+	}
+	g := f.Graph()
+	nonNil := g.EdgesImplying(func(a Atom) bool {
+		b, ok := ast.Unparen(a.E).(*ast.BinaryExpr)
+		if !ok {
+			return false
+		}
+		var other ast.Expr
+		switch {
+		case objOf(info, b.X) == obj:
+			other = b.Y
+		case objOf(info, b.Y) == obj:
+			other = b.X
+		default:
+			return false
+		}
+		if !isNilIdent(info, other) {
+			return false
+		}
+		return (b.Op == token.NEQ && a.Val) || (b.Op == token.EQL && !a.Val)
+	})
+	if len(nonNil) == 0 {
+		return false
+	}
+	cut := Cut{Edges: nonNil}
+	if pt, _ := g.ReachableFromEntry(cut, atSite(use[0])); pt != nil {
+		return false
+	}
+	for _, s := range sites {
+		if s.P == use[0].P {
+			continue
+		}
+		if pt, _ := g.Reach(s.After(), cut, atSite(use[0])); pt != nil {
+			return false
 		}
 	}
 	return true
